@@ -86,6 +86,29 @@ func c18R1(c *engine.Ctx) {
 		n++
 		first := map[uint32]bool{}
 		byte0, second := false, false
+		// the header is the array the function returns (by that role, whatever it is
+		// called); its first byte and its first two little-endian words are tested
+		var hdr ssa.Value
+		if ld, ok := engine.Unwrap(engine.RetVal(r, 0)).(*ssa.UnOp); ok && ld.Op == token.MUL {
+			hdr = ld.X
+		}
+		wordAt := func(v ssa.Value) int64 { // offset of the 4-byte word of hdr that v reads, -1 if none
+			call := engine.CallOf(v)
+			if call == nil || hdr == nil || !strings.HasSuffix(engine.CalleeID(call.Common()), ".Uint32") {
+				return -1
+			}
+			args := engine.Args(call.Common())
+			sl, isSl := engine.Unwrap(args[len(args)-1]).(*ssa.Slice)
+			if !isSl {
+				return -1
+			}
+			root, lo, ok := sliceRoot(sl)
+			hi, isK := engine.ConstInt(sl.High)
+			if !ok || root != hdr || sl.High == nil || !isK || hi != lo+4 {
+				return -1
+			}
+			return lo
+		}
 		for _, g := range engine.Guards(r) {
 			k := g.Cmp()
 			for _, kk := range []engine.Cmp{k, k.Swap()} {
@@ -93,14 +116,20 @@ func c18R1(c *engine.Ctx) {
 				if !isK || kk.Op != token.NEQ {
 					continue
 				}
-				d := engine.Describe(kk.X)
-				switch {
-				case strings.HasSuffix(d, "init[0]") && cst == 0xef:
-					byte0 = true
-				case strings.Contains(d, "Uint32(") && strings.Contains(d, "init[0:4]"):
+				if ld, ok := engine.Unwrap(kk.X).(*ssa.UnOp); ok && ld.Op == token.MUL {
+					if ia, isIA := ld.X.(*ssa.IndexAddr); isIA && ia.X == hdr {
+						if i, isI := engine.ConstInt(ia.Index); isI && i == 0 && cst == 0xef {
+							byte0 = true
+						}
+					}
+				}
+				switch wordAt(kk.X) {
+				case 0:
 					first[uint32(cst)] = true
-				case strings.Contains(d, "Uint32(") && strings.Contains(d, "init[4:8]") && cst == 0:
-					second = true
+				case 4:
+					if cst == 0 {
+						second = true
+					}
 				}
 			}
 		}
@@ -119,7 +148,7 @@ func c18R1(c *engine.Ctx) {
 			if h == nil || len(h.Blocks) == 0 || h.Pkg != fn.Pkg || len(h.Params) != 1 || len(call.Common().Args) != 1 {
 				continue
 			}
-			if d := engine.Describe(call.Common().Args[0]); !strings.Contains(d, "Uint32(") || !strings.Contains(d, "init[0:4]") {
+			if wordAt(call.Common().Args[0]) != 0 {
 				continue
 			}
 			for _, w := range want {
@@ -148,7 +177,7 @@ func c18R1(c *engine.Ctx) {
 		c.Check(len(missing) == 0, "C18.R1", "generateInit/reserved-first-word", r.Pos(), "reserved first words not excluded on the accepting path: %v", missing)
 		c.Check(second, "C18.R1", "generateInit/second-word-nonzero", r.Pos(), "a zero second word must be regenerated")
 		// the value returned is the buffer that was tested
-		c.Check(strings.Contains(engine.Describe(engine.RetVal(r, 0)), "init"), "C18.R1", "generateInit/returns-tested", r.Pos(), "the returned header must be the buffer that was tested")
+		c.Check(hdr != nil, "C18.R1", "generateInit/returns-tested", r.Pos(), "the returned header must be the buffer that was tested (the tests above are looked for on the returned array)")
 	}
 	c.Floor("C18.R1", 1, n)
 }
@@ -291,7 +320,17 @@ func c18R2(c *engine.Ctx) {
 	}
 	joined := strings.Join(descs, " ; ")
 	okTag := err == nil && strings.Contains(joined, "[56:60] ← P1")
-	okHdr := strings.Contains(joined, "[0:56]") && strings.Contains(joined, "[56:] ← alloc:encryptedInit[56:64]")
+	// the encrypted copy of init: destination of XORKeyStream on the encrypt stream
+	// (identified by that role, not by the name of the local)
+	encBase := ""
+	for _, call := range engine.Calls(gk) {
+		if call.Common().IsInvoke() && call.Common().Method.Name() == "XORKeyStream" && strings.HasSuffix(engine.Describe(call.Common().Value), ".encrypt") {
+			if sp, ok := sk.SpanOf(call.Common().Args[0], call); ok && sp.Full && sp.Lo == (engine.Lin{}) {
+				encBase = sp.Base
+			}
+		}
+	}
+	okHdr := encBase != "" && strings.Contains(joined, "[0:56]") && strings.Contains(joined, "[56:] ← "+encBase+"[56:64]")
 	c.Check(okTag, "C18.R2", "generateKeys/protocol-tag-56-60", gk.Pos(), "the protocol tag must be placed at init[56:60]; splices: %s", joined)
 	c.Check(okHdr, "C18.R2", "generateKeys/header", gk.Pos(), "header must be init[0:56] ‖ encrypted[56:64]; splices: %s", joined)
 	var dcPut, xor ssa.CallInstruction
